@@ -1,6 +1,7 @@
 import TracklibVerif.Lemmas.Filter
 import TracklibVerif.Lemmas.FilterNp
 import TracklibVerif.Lemmas.FilterShort
+import TracklibVerif.Lemmas.FilterKernels
 import Mathlib.Algebra.Order.Ring.Rat
 import Mathlib.Algebra.Field.Rat
 import Mathlib.Tactic.NormNum
@@ -765,6 +766,81 @@ theorem smooth_too_short_fails (t : Sigs α) (f : α → α) (support : α) (S :
     simp [hop]
   rw [this]
 
+/-! ## The kernels written with `math.pow` and `math.exp` -/
+
+/-- **T5 for a kernel function that is even, non-negative everywhere and positive at 0**, support at least 1:
+the sliding window is odd, symmetric, sums to 1 and is non-negative, with a positive centre weight. -/
+theorem window_of_even_nonneg_kernel (f : α → α) (support : α) (S : Nat) (hs : ¬ support < 1)
+    (heven : ∀ y, f (-y) = f y) (hnn : ∀ x, 0 ≤ f x) (hc : 0 < f 0) :
+    ∃ w, slidingWindow f support S = .ok w ∧ GoodWindow w S ∧ ∃ c, w[w.length / 2]? = some c ∧ 0 < c := by
+  obtain ⟨hsum, w, hw, hn, hcentre⟩ := window_nonneg f support S hs (fun i _ => hnn _) hc
+  obtain ⟨w', hw', h1, h2, h3, h4⟩ := window_shape f support S hs heven (ne_of_gt hsum)
+  rw [hw] at hw'
+  cases hw'
+  exact ⟨w, hw, ⟨h1, h2, h3, h4, hn⟩, hcentre⟩
+
+/-- **`CubicKernel` and `SphericKernel`** (`math.pow` with the exponents 2, 3, 5, 7 is a product): their kernel
+functions are even, equal to 1 at 0, and non-negative — they are `(1-u)⁴(3u³+12u²+16u+4)/4` and `(1-u)²(2+u)/2`
+with `u = |x|/sigma ≥ 0`. -/
+theorem pow_kernels (sigma : α) (h : 0 < sigma) :
+    (∀ y, cubicF sigma (-y) = cubicF sigma y) ∧ (∀ x, 0 ≤ cubicF sigma x) ∧ cubicF sigma 0 = 1 ∧
+    (∀ y, sphericF sigma (-y) = sphericF sigma y) ∧ (∀ x, 0 ≤ sphericF sigma x) ∧ sphericF sigma 0 = 1 :=
+  ⟨cubicF_even sigma, fun x => cubicF_nonneg sigma x h, cubicF_zero sigma,
+   sphericF_even sigma, fun x => sphericF_nonneg sigma x h, sphericF_zero sigma⟩
+
+/-- … hence, for any `sigma ≥ 1` (their support), their sliding windows are odd, symmetric, non-negative and sum to 1. -/
+theorem pow_kernel_windows (sigma : α) (S : Nat) (hs : ¬ sigma < 1) :
+    (∃ w, slidingWindow (cubicF sigma) (cubicSupport sigma) S = .ok w ∧ GoodWindow w S) ∧
+    (∃ w, slidingWindow (sphericF sigma) (sphericSupport sigma) S = .ok w ∧ GoodWindow w S) := by
+  have hpos : 0 < sigma := lt_of_lt_of_le one_pos (le_of_not_gt hs)
+  obtain ⟨c1, c2, c3, s1, s2, s3⟩ := pow_kernels sigma hpos
+  obtain ⟨w, hw, hg, _⟩ := window_of_even_nonneg_kernel (cubicF sigma) (cubicSupport sigma) S hs c1 c2 (by rw [c3]; exact one_pos)
+  obtain ⟨w', hw', hg', _⟩ := window_of_even_nonneg_kernel (sphericF sigma) (sphericSupport sigma) S hs s1 s2 (by rw [s3]; exact one_pos)
+  exact ⟨⟨w, hw, hg⟩, ⟨w', hw', hg'⟩⟩
+
+/-- **`GaussianKernel` and `ExponentialKernel`**, `math.exp` being any function with positive values and
+`math.sqrt(2·math.pi)` any positive constant, for any `sigma` with support `3·sigma ≥ 1`: the kernel functions are
+even and positive, the sliding windows odd, symmetric, non-negative, summing to 1. -/
+theorem exp_kernel_windows (expF : α → α) (hexp : ∀ y, 0 < expF y) (c : α) (hc : 0 < c) (sigma : α) (S : Nat)
+    (hs : ¬ gaussianSupport sigma < 1) :
+    (∃ w, slidingWindow (gaussianF expF c sigma) (gaussianSupport sigma) S = .ok w ∧ GoodWindow w S) ∧
+    (∃ w, slidingWindow (exponentialF expF sigma) (exponentialSupport sigma) S = .ok w ∧ GoodWindow w S) := by
+  have hpos : 0 < sigma := by
+    unfold gaussianSupport at hs
+    push_cast at hs
+    by_contra hn
+    exact hs (by linarith [not_lt.mp hn])
+  obtain ⟨w, hw, hg, _⟩ := window_of_even_nonneg_kernel (gaussianF expF c sigma) (gaussianSupport sigma) S hs
+    (gaussianF_even expF c sigma) (fun x => le_of_lt (gaussianF_pos expF hexp c sigma x hc hpos)) (gaussianF_pos expF hexp c sigma 0 hc hpos)
+  obtain ⟨w', hw', hg', _⟩ := window_of_even_nonneg_kernel (exponentialF expF sigma) (exponentialSupport sigma) S hs
+    (exponentialF_even expF sigma) (fun x => le_of_lt (exponentialF_pos expF hexp sigma x hpos)) (exponentialF_pos expF hexp sigma 0 hpos)
+  exact ⟨⟨w, hw, hg⟩, ⟨w', hw', hg'⟩⟩
+
+/-- **`Track.smooth(width)` with the Gaussian kernel function written out** (`math.exp` positive): on a track
+whose coordinates hold no NaN and at least `D = int(3·width)` observations, the Gaussian window exists (odd,
+symmetric, non-negative, sum 1), the call succeeds, every coordinate becomes the signal of renormalised
+weighted means of its former values (boundaries copied), features are untouched. -/
+theorem smooth_gaussian (expF : α → α) (hexp : ∀ y, 0 < expF y) (c : α) (hc : 0 < c) (width : α) (S : Nat)
+    (hs : ¬ gaussianSupport width < 1) (t : Sigs α) (hsize : trackSize t ≠ 0)
+    (hall : ∀ d ∈ ["x", "y", "z"], ∃ v, getSig t d = some v ∧ S ≤ v.length ∧ ∀ i, i < v.length → ∃ x, v[i]? = some (some x)) :
+    ∃ w t', slidingWindow (gaussianF expF c width) (gaussianSupport width) S = .ok w ∧ GoodWindow w S ∧
+      smooth Globals.initial t (gaussianF expF c width) (gaussianSupport width) S = some (.ok t', Globals.initial) ∧
+      (∀ d ∈ ["x", "y", "z"], ∃ v, getSig t d = some v ∧ getSig t' d = some (meanSignal v w false)) ∧
+      (∀ nm, nm ∉ ["x", "y", "z"] → nm ≠ "temp" → getSig t' nm = getSig t nm) := by
+  have hpos : 0 < width := by
+    unfold gaussianSupport at hs
+    push_cast at hs
+    by_contra hn
+    exact hs (by linarith [not_lt.mp hn])
+  obtain ⟨w, hw, hg, c0, hc0, hc0pos⟩ := window_of_even_nonneg_kernel (gaussianF expF c width) (gaussianSupport width) S hs
+    (gaussianF_even expF c width) (fun x => le_of_lt (gaussianF_pos expF hexp c width x hc hpos)) (gaussianF_pos expF hexp c width 0 hc hpos)
+  obtain ⟨t', h1, h2, h3⟩ := smooth_is_mean t _ _ S w hw hsize (fun d hd => by
+    obtain ⟨v, hv, hlen, hnan⟩ := hall d hd
+    refine ⟨v, hv, inDomain_of_centre_weight v w false hg.odd hg.nonneg c0 hc0 hc0pos hnan (fun _ => ?_)⟩
+    have := hg.length
+    omega)
+  exact ⟨w, t', hw, hg, h1, h2, h3⟩
+
 /-! ## The domain is sharp, and it is inhabited -/
 
 /-- outside the domain: an odd window one of whose norms is zero makes the method fail with a
@@ -856,6 +932,16 @@ example : filterWindow (α := ℚ) [some 0, some 10, some 0] [0, 1/3, 1/3, 1/3, 
 /-- … and a 1-point track (`1 < D = 2`) makes the boundary copy fail -/
 example : filterWindow (α := ℚ) [some 7] [0, 1/3, 1/3, 1/3, 0] false = .error .index := by
   simp [filterWindow, filterWindowG, cells, inner, sample, List.range, List.range.loop]
+
+/-- the sliding window of `SphericKernel(2)`: `f(±1) = 1 - (3/4 - 1/16) = 5/16`, `f(±2) = 0` -/
+example : slidingWindow (sphericF (2 : ℚ)) (sphericSupport 2) 2 = .ok [0, 5/26, 8/13, 5/26, 0] := by
+  simp [slidingWindow, sphericSupport, sphericF, powN, evaluate, samplePoint, absv, ind, List.range, List.range.loop]
+  norm_num
+
+/-- the sliding window of `CubicKernel(2)`: `f(±1) = 1 - (7/4 - 35/32 + 7/64 - 3/512) = 123/512` -/
+example : slidingWindow (cubicF (2 : ℚ)) (cubicSupport 2) 2 = .ok [0, 123/758, 256/379, 123/758, 0] := by
+  simp [slidingWindow, cubicSupport, cubicF, powN, evaluate, samplePoint, absv, ind, List.range, List.range.loop]
+  norm_num
 
 /-- `dim="xy"` is walked character by character -/
 example : dimNames Globals.initial (.str "xy") = some ["x", "y"] := by decide
